@@ -175,6 +175,16 @@ var registry = []HarnessSpec{
 		Asm: "dec_uint32", T3: "intrange", T3Bits: 32, T3Signed: false, T3Native: "native.vunsigned", ReplayEnv: []string{"VERIF_T3_TYPE=uint32", "VERIF_T3_KIND=integer", "VERIF_T3_UNSIGNED=1"},
 		Desc:   "generated uint32 decoder: stores exactly the parsed integer when < 2^32, range error otherwise",
 		Bounds: "instruction list dumped for uint32; all 2^64 results of native vunsigned"},
+	{Prop: "C02", Pkg: mod, PkgName: "sonic", Func: "VerifT3Replay", Tier: "quick", Covers: []string{"dispatch"},
+		Asm: "dec_generic", T3: "gentable", ReplayEnv: []string{"VERIF_T3_TYPE=generic", "VERIF_T3_KIND=gentable"},
+		Desc:    "generated generic (interface{}) decoder: each structural character , : [ ] { } is dispatched to the same handler by the inline fast path (_decode_tab) and by the path through native value() (_switch_table) - a separator means the same however much white space precedes it",
+		Bounds:  "instruction list dumped for the generic decoder; the six structural bytes; both dispatch paths executed symbolically up to the handler label",
+		Assumes: []string{"native value() reports the token codes of native/types.go for structural characters (V_ARRAY 5, V_OBJECT 6, V_KEY_SEP 10, V_ELEM_SEP 11, V_ARRAY_END 12, V_OBJECT_END 13)"}},
+	{Prop: "C07", Pkg: mod, PkgName: "sonic", Func: "VerifT3Replay", Tier: "quick", Covers: []string{"stack-store:_decode_V_ARRAY", "stack-store:_decode_V_OBJECT", "stack-store:_object_key", "stack-store:_array_append"},
+		Asm: "dec_generic", T3: "gendepth", ReplayEnv: []string{"VERIF_T3_TYPE=generic", "VERIF_T3_KIND=gendepth"},
+		Desc:    "generated generic decoder: from every legal depth, each handler that pushes a state (array, object, object key, array element) either reports stack overflow or stores inside ST.Vt / ST.Vp (one inductive step over the nesting depth)",
+		Bounds:  "instruction list dumped for the generic decoder; handlers _decode_V_ARRAY, _decode_V_OBJECT, _object_key, _array_append; entry depth Sp symbolic in 0..len(Vt)-1; array lengths and offsets taken from the real _Stack layout",
+		Assumes: []string{"handlers are entered with CX = ST.Sp (as loaded at _next)", "Go helpers called from the handlers clobber caller-saved registers and return a fresh pointer"}},
 
 	{Prop: "C13", Pkg: mod + "/internal/native", PkgName: "native", Func: "VerifC13Dispatch", Tier: "quick", Covers: []string{"end"},
 		Desc:    "dispatch wiring: useSSE()/useAVX2() bind each of the 17 subroutine addresses and 15 Go entry points to the same-named symbol of the selected package",
